@@ -150,6 +150,17 @@ def conv_array(obj, dtype):
     return real_np.array(r, dtype=object)
 
 
+def message_fmt(lit, args):
+    """'%' for modules that only format messages: exactly lit % args when that works; symbolic arguments that a numeric conversion
+    cannot take are shown as text"""
+    try:
+        return lit % args
+    except (Unsupported, TypeError):
+        tup = args if isinstance(args, tuple) else (args,)
+        lit2 = re.sub(r'%[-+ #0]*\d*(?:\.\d+)?[diouxXeEfFgG]', '%s', lit)
+        return lit2 % tuple(str(a) for a in tup)
+
+
 class Rewriter(ast.NodeTransformer):
     """the only source rewrite: "<literal>" % args  ->  __symfmt__("<literal>", args)"""
 
